@@ -448,5 +448,27 @@ def r7_every_component_is_asked(chk, rule='C08.R7', meths=('getData',), attrs=No
     chk.floor(rule, 1, 'component loops of compile()')
 
 
+
+def r8_generators_start_clean(chk):
+    """a symbol-table generator that carries the error state of a rejected module rejects every later module: their
+    IMPORTS are never queued (shared with C12.R2)"""
+    from rules.C12 import r2_generator_reset
+    common.reuse(chk, r2_generator_reset, ('C12.R2',), 'C08.R8',
+                 'SymtableCodeGen re-initialises at the start of genCode every attribute its handlers write (C12.R2): the '
+                 'dependency walk does not stop behind one bad module', keep=lambda o: o.key.startswith('SymtableCodeGen'),
+                 floor=5)
+
+
+
+def r9_reader_tries_every_directory(chk):
+    """"the first source that holds a module supplies the text": a source holds what is in any of its directories
+    (shared with C14.R1)"""
+    from rules.C14 import r1_file_reader
+    common.reuse(chk, r1_file_reader, ('C14.R1',), 'C08.R9',
+                 'FileReader.getData computes the name variants inside the directory loop (a generator is used up by the '
+                 'first directory) and tests each in every directory of the walk (C14.R1)',
+                 keep=lambda o: 'variants' in o.key or 'walks' in o.key, floor=1)
+
+
 RULES = [r1_worklist_growth, r2_seen_set, r3_ordering, r4_first_hit, r5_no_mutation_while_iterating,
-         r6_argument_agreement, t1_typestate, r7_every_component_is_asked]
+         r6_argument_agreement, t1_typestate, r7_every_component_is_asked, r8_generators_start_clean, r9_reader_tries_every_directory]
